@@ -6,7 +6,7 @@
   front ends (`parse()` with a root-less file, `ArgumentParser` with a dest-keyed file).
 
   The full statement (without `fileSafe`) does not hold for the code as it is: `c15_full_witness_items`,
-  `c15_full_witness_none`, `c15_full_witness_class_none` refute it on the three open findings.  `fileSafe` is
+  `c15_full_witness_none`, `c15_full_witness_class_none`, `c15_full_witness_literal` refute it on the open findings.  `fileSafe` is
   the decidable predicate that names exactly what is excluded.
 -/
 import SpVerif.Model.ConfigLoop
@@ -51,7 +51,23 @@ def hasItems : List ITy → List Scalar → Bool
   | t :: ts, s :: ss => hasITy t s && hasItems ts ss
   | _, _ => false
 
-/-- a literal value whose name finds it back among the declared values -/
+/-- a value a `Literal[…]` annotation admits (str / int / bool values) -/
+def litMember (vals : List Scalar) (s : Scalar) : Bool :=
+  match s with
+  | .str _ => vals.contains s
+  | .int _ => vals.contains s
+  | .bool _ => vals.contains s
+  | _ => false
+
+/-- a string literal value is found back by its name: `choice_dict = {str(v): v for v in values}` keeps the LAST value of
+    each name (field_wrapper.py:891), so a str value shadowed by a later value with the same `str()` is lost (finding
+    C15-literal-name-collision); non-str values are never looked up -/
+def litSafe (vals : List Scalar) (s : Scalar) : Bool :=
+  match s with
+  | .str n => vals.reverse.find? (fun v => literalName v = some n) == some s
+  | _ => true
+
+/-- what the literal lemma needs: membership, and for a str value that its name finds it back -/
 def litOk (vals : List Scalar) (s : Scalar) : Bool :=
   match s with
   | .str n => vals.reverse.find? (fun v => literalName v = some n) == some s   -- last match wins, as in `choice_dict`
@@ -59,9 +75,13 @@ def litOk (vals : List Scalar) (s : Scalar) : Bool :=
   | .bool _ => vals.contains s
   | _ => false
 
+theorem litOk_of (vals : List Scalar) (s : Scalar) (hm : litMember vals s = true) (hs : litSafe vals s = true) :
+    litOk vals s = true := by
+  cases s <;> simp_all [litMember, litSafe, litOk]
+
 def hasNTy : NTy → Val → Bool
   | .sc i, .sc s => hasITy i s
-  | .literal vals, .sc s => litOk vals s
+  | .literal vals, .sc s => litMember vals s
   | .list i, .list l => l.all (hasITy i)
   | .tuple items, .tuple l => hasItems items l
   | .vtuple i, .tuple l => l.all (hasITy i)
@@ -83,6 +103,12 @@ def itemsSafe : Val → Bool
   | .list l => l.all safeItem
   | .tuple l => l.all safeItem
 
+/-- the Literal clause of the exclusion, as a predicate of annotation and value -/
+def literalSafe (t : FTy) (v : Val) : Bool :=
+  match t.inner, v with
+  | .literal vals, .sc s => litSafe vals s
+  | _, _ => true
+
 /-- a None needs an Optional annotation -/
 def defaultOk (f : FieldSpec) : Bool := f.ty.optional || !(f.default == .value (.sc .none))
 
@@ -95,7 +121,7 @@ def noneDefault (pd : PD) (f : FieldSpec) : Bool :=
 
 /-- `leafSafe`: the named exclusions for one leaf -/
 def leafSafe (pd : PD) (f : FieldSpec) (v : Val) : Bool :=
-  itemsSafe v && (!(v == .sc .none) || noneDefault pd f)
+  itemsSafe v && literalSafe f.ty v && (!(v == .sc .none) || noneDefault pd f)
 
 /-! ### encode facts -/
 
@@ -212,7 +238,7 @@ theorem hasNTy_ne_none (t : NTy) (h : hasNTy t (.sc .none) = true) : False := by
   | sc i => cases i with
     | base b => cases b <;> simp [hasNTy, hasITy, hasBTy] at h
     | union a => simp [hasNTy, hasITy] at h
-  | literal vals => simp [hasNTy, litOk] at h
+  | literal vals => simp [hasNTy, litMember] at h
   | list i => simp [hasNTy] at h
   | tuple items => simp [hasNTy] at h
   | vtuple i => simp [hasNTy] at h
@@ -282,26 +308,27 @@ theorem leaf_loop (fenv : FEnv) (force : Bool) (pd : PD) (f : FieldSpec) (v : Va
         | true => simp [InCliGrammar] at hg
         | false =>
           exact ⟨_, leaf_literal fenv force name vals dflt al s (by simpa [InCliGrammar] using hg)
-            (by simpa [defaultOk] using hd) (by simpa [hasNTy] using hty)⟩
+            (by simpa [defaultOk] using hd)
+            (litOk_of vals s (by simpa [hasNTy] using hty) (by simpa [literalSafe] using hs.1.2))⟩
       | list l => simp [hasNTy] at hty
       | tuple l => simp [hasNTy] at hty
     | list i =>
       cases v with
       | list l =>
         simp only [InCliGrammar, Bool.and_eq_true] at hg
-        exact ⟨_, leaf_list fenv force name i opt dflt al l hg.2 hd' (by simpa [itemsSafe] using hs.1)⟩
+        exact ⟨_, leaf_list fenv force name i opt dflt al l hg.2 hd' (by simpa [itemsSafe] using hs.1.1)⟩
       | sc s => simp [hasNTy] at hty
       | tuple l => simp [hasNTy] at hty
     | tuple items =>
       cases v with
       | tuple l =>
         simp only [InCliGrammar, Bool.and_eq_true] at hg
-        exact ⟨_, leaf_tuple fenv force name items opt dflt al l hg.2 hd' (by simpa [itemsSafe] using hs.1)⟩
+        exact ⟨_, leaf_tuple fenv force name items opt dflt al l hg.2 hd' (by simpa [itemsSafe] using hs.1.1)⟩
       | sc s => simp [hasNTy] at hty
       | list l => simp [hasNTy] at hty
     | vtuple i =>
       cases v with
-      | tuple l => exact ⟨_, leaf_vtuple fenv force name i opt dflt al l hd' (by simpa [itemsSafe] using hs.1)⟩
+      | tuple l => exact ⟨_, leaf_vtuple fenv force name i opt dflt al l hd' (by simpa [itemsSafe] using hs.1.1)⟩
       | sc s => simp [hasNTy] at hty
       | list l => simp [hasNTy] at hty
 
@@ -519,7 +546,7 @@ def guardOk (f : FieldSpec) (eff : DefaultV) : Bool :=
 def leafQuiet (f : FieldSpec) (eff : DefaultV) : Bool :=
   InCliGrammar f.ty && guardOk f eff &&
   match eff with
-  | .value d => HasType f.ty d
+  | .value d => HasType f.ty d && literalSafe f.ty d
   | .missing => true
 
 /-- a well-typed scalar default (not encoded: the Enum member, the Path object) comes out as it went in -/
@@ -604,6 +631,8 @@ theorem leafQuiet_ok (fenv : FEnv) (f : FieldSpec) (eff : DefaultV) (h : leafQui
     | false => exact default_missing fenv name inner dflt al hg hgd
   | value d =>
     simp only [defaultVal]
+    simp only [Bool.and_eq_true] at hrest
+    obtain ⟨hrest, hlit⟩ := hrest
     by_cases hv : d = .sc .none
     · subst hv
       have hopt : opt = true := by
@@ -635,7 +664,7 @@ theorem leafQuiet_ok (fenv : FEnv) (f : FieldSpec) (eff : DefaultV) (h : leafQui
           | true => simp [InCliGrammar] at hg
           | false =>
             exact default_literal fenv true name vals dflt al s (by simpa [InCliGrammar] using hg) hgd
-              (by simpa [hasNTy] using hty)
+              (litOk_of vals s (by simpa [hasNTy] using hty) (by simpa [literalSafe] using hlit))
         | list l => simp [hasNTy] at hty
         | tuple l => simp [hasNTy] at hty
       | list i => exact default_container fenv true name _ opt dflt al d hg hgd (by simp) (by simp) hty
@@ -783,6 +812,29 @@ def xClassNone : Inst := .subNone "sub".toList .nil
 def specTupleNone : Spec :=
   .sub "sub".toList "K1".toList true .none (.leaf ⟨"w".toList, ⟨.vtuple (.base .bool), false⟩, .missing, []⟩ .nil) .nil
 def xTupleNone : Inst := .subNone "sub".toList .nil
+
+/-- `k: Literal["0", 0]` holding `"0"` -/
+def specLit : Spec :=
+  .leaf ⟨"k".toList, ⟨.literal [.str "0".toList, .int 0], false⟩, .missing, []⟩ .nil
+def xLit : Inst := .leaf "k".toList (.sc (.str "0".toList)) .nil
+
+/-- C15-literal-name-collision: the saved `"0"` comes back as the int `0` (the later value with the same `str()`) -/
+theorem c15_literal_witness (api : Api) :
+    loop [] api "config".toList specLit xLit = .ok (.leaf "k".toList (.sc (.int 0)) .nil) := by
+  cases api <;> rfl
+
+theorem conforms_lit : Conforms specLit xLit := ⟨_, _, rfl, rfl, rfl, rfl, rfl⟩
+
+theorem c15_full_witness_literal : ¬ FullStatement := by
+  intro h
+  have := h [] .parse "config".toList specLit xLit conforms_lit ⟨by simp [Spec.names], trivial⟩
+  rw [c15_literal_witness] at this
+  simp [xLit] at this
+
+/-- the exclusion is exactly the shadowed str value: the int `0` of the same Literal, and `"0"` when it comes last, are safe -/
+example : fileSafe [] specLit .empty xLit = false := by rfl
+example : fileSafe [] specLit .empty (.leaf "k".toList (.sc (.int 0)) .nil) = true := by rfl
+example : fileSafe [] (.leaf ⟨"k".toList, ⟨.literal [.int 0, .str "0".toList], false⟩, .missing, []⟩ .nil) .empty xLit = true := by rfl
 
 /-- C15-D17a: the enum item comes back as the string `"GREEN"` -/
 theorem c15_items_witness (api : Api) :
